@@ -377,6 +377,12 @@ class HomeKitConnection:
             await self._connector
         except asyncio.CancelledError:
             pass
+        except Exception:
+            # The connector had already finished with an error (for example
+            # an AuthenticationError). It was reported to whoever was waiting
+            # for the connection and is kept in last_connector_error;
+            # stopping the connector must not raise it again.
+            logger.debug("%s: Connector had already failed", self.name, exc_info=True)
 
     async def get(self, target: str) -> HttpResponse:
         """
